@@ -109,6 +109,8 @@ def check(ix, rep):
             if c.name == 'PredicateOperation':
                 # the raising else-arm of the comparison table is unreachable for the six operators; C07 checks the table
                 raises = [r for r in raises if not _is_else_of_table(up.node, r)]
+            # a raise whose path condition reads configuration only (self.*, tables, constants) does not depend on the samples
+            raises = [r for r in raises if _data_dependent(up.node, r)]
             if raises and opname not in PARTIAL_OPS:
                 rep.fail('R-PARTIAL', up.module.rel, '%s.update' % c.name, opname,
                          'operator `%s` is total in the reference semantics but update() raises under a data-dependent '
@@ -195,6 +197,55 @@ def _is_else_of_table(func, r):
         if isinstance(n, ast.If) and r in n.orelse:
             return True
     return False
+
+
+def _data_dependent(func, r):
+    """the conditions under which the raise is reached mention an operand of update() (a parameter, or a local computed from one).
+    Conditions: the tests of the enclosing ifs and loops; for a raise in an except handler, the body of its try.  A raise reached
+    under no condition at all counts as dependent (it is reported as `unconditional`)."""
+    params = {a.arg for a in func.args.posonlyargs + func.args.args[1:] + func.args.kwonlyargs}
+    if func.args.vararg:
+        params.add(func.args.vararg.arg)
+    tainted = set(params)
+    changed = True
+    while changed:
+        changed = False
+        for n in ast.walk(func):
+            tg = None
+            if isinstance(n, ast.Assign):
+                tg, val = n.targets, n.value
+            elif isinstance(n, ast.AugAssign):
+                tg, val = [n.target], n.value
+            elif isinstance(n, ast.For):
+                tg, val = [n.target], n.iter
+            if tg is None:
+                continue
+            if any(isinstance(x, ast.Name) and x.id in tainted for x in ast.walk(val)):
+                for t in tg:
+                    for x in ast.walk(t):
+                        if isinstance(x, ast.Name) and isinstance(x.ctx, ast.Store) and x.id not in tainted:
+                            tainted.add(x.id)
+                            changed = True
+    parent = {}
+    for n in ast.walk(func):
+        for c in ast.iter_child_nodes(n):
+            parent[id(c)] = n
+    conds = []
+    n = r
+    while id(n) in parent:
+        p = parent[id(n)]
+        if isinstance(p, (ast.If, ast.While)) and n is not p.test:
+            conds.append(p.test)
+        elif isinstance(p, ast.For):
+            conds.append(p.iter)
+        elif isinstance(p, ast.ExceptHandler):
+            t = parent.get(id(p))
+            if isinstance(t, ast.Try):
+                conds.extend(t.body)
+        n = p
+    if not conds:
+        return True
+    return any(isinstance(x, ast.Name) and x.id in tainted for c in conds for x in ast.walk(c))
 
 
 def _guard_text(func, r):
